@@ -56,13 +56,14 @@ NODE_RTOL = 1e-12
 # methods, see worst_reference_uncertainty in the evidence); second: rounding of the
 # differentiated code function (S_src its size) divided by the smallest step.  CR is the
 # number of ulps of S_src by which one evaluation of the code function may be off: spline
-# evaluation is a 16-term sum (observed noise <= 3 ulp), the dct evaluation sums nR*nZ terms
-# of size up to S (observed <= 0.2*sqrt(nR*nZ) ulp).
-RTOL = {"spline": 2e-9, "dct": 2e-9}
+# evaluation is a 16-term sum, the dct evaluation sums nR*nZ terms of size up to S; the
+# constants below are >= 15 times the noise observed on the pinned tree (see
+# worst_ratio_per_check in the evidence: <= 0.07 over all seeds and both tiers).
+RTOL = {"spline": 1e-9, "dct": 1e-9}
 
 
 def _cr(method, nR, nZ):
-    return 60.0 if method == "spline" else 60.0 + 6.0 * np.sqrt(nR * nZ)
+    return 20.0 if method == "spline" else 20.0 + 2.0 * np.sqrt(nR * nZ)
 
 
 # div B = 0 and B^2 = |B|^2 are algebraic identities of the returned numbers: 1e-11 relative
@@ -360,7 +361,7 @@ def _profile_checks(eq, rec, c, R, Z, Ssrc):
     h = np.minimum(0.2 * cell, dist / 2.2)
     fd, est = F.romberg(lambda a, b: _asarr(eq.fpol(a))[None], x, 0 * x, h, 0)
     Sd = float(np.max(np.abs(F.cubic_prime(F.FCOEF, x))))
-    tolp = 1e-9 * Sd + 60 * U * Sf / (h / 4)
+    tolp = 1e-9 * Sd + 20 * U * Sf / (h / 4)
     rec.judge("fpolprime vs FD(fpol)", eq.fpolprime(x), fd[0], tolp, x, 0 * x)
     # the interpolating cubic spline through samples of a cubic is that cubic
     rec.judge("fpol vs the cubic it was sampled from", eq.fpol(x), F.cubic(F.FCOEF, x), 1e-11 * Sf, x, 0 * x)
@@ -422,9 +423,13 @@ def _argument_forms(eq, rec, R, Z):
 # kink in its first derivative there: in a boundary layer its gradient does not converge in the
 # maximum norm at all (this is the method's interpolation error, not a defect), away from it
 # the value converges with order ~2..3 and the gradient with ~1.3..2 (observed).  The dct is
-# therefore judged on the window that stays DCT_WINDOW of the span away from every edge; the
-# spline on the whole lattice.  Observed minimum orders on the pinned tree: spline 3.6 / 2.6,
-# dct (window) 2.6 / 1.3; the demanded ones leave at least 0.6.
+# therefore judged on the window that stays DCT_WINDOW of the span away from every edge.  The
+# *order* of the spline is judged on the same window (next to an edge its error is governed by
+# the not-a-knot end condition and, at 33 points across a Gaussian that peaks near the edge,
+# is not yet in the asymptotic regime: 1.5 observed for the gradient of G:usn); the spline's
+# error bound from refinement is judged on the whole lattice.  Observed minimum orders on the
+# window: spline 3.6 / 2.6, dct 2.5 / 1.1; the demanded ones leave at least 0.4 (a factor 1.3
+# in the error).
 MIN_ORDER = {"spline": (3.0, 2.0), "dct": (1.5, 0.7)}
 DCT_WINDOW = 0.2
 
@@ -455,9 +460,12 @@ def conv_task(task):
             p = _asarr(eq.psi(R, Z))
             gR, gZ = -R * _asarr(eq.Bp_Z(R, Z)), R * _asarr(eq.Bp_R(R, Z))
             vals[(method, nR, nZ)] = (p, gR, gZ)
+            ww = _window(func, R, Z, "dct")
             res["%s %dx%d" % (method, nR, nZ)] = (
                 float(np.max(np.abs(p - func.f(R, Z))[w])),
                 float(np.max(np.hypot(gR - aR, gZ - aZ)[w])),
+                float(np.max(np.abs(p - func.f(R, Z))[ww])),
+                float(np.max(np.hypot(gR - aR, gZ - aZ)[ww])),
             )
     cross = {}
     w = _window(func, R, Z, "dct")
@@ -496,10 +504,12 @@ def judge_conv(ctx, r, stats):
                     ok = e0 < floor and e1 < floor
                     order = None
                 else:
-                    order = float(np.log2(e0 / max(e1, 1e-300)))
+                    w0, w1 = r["err"][lo][q + 2], r["err"][hi][q + 2]  # on the interior window
+                    order = float(np.log2(w0 / max(w1, 1e-300)))
                     need = MIN_ORDER[method][q]
-                    ok = e1 < floor or order >= need
-                    stats["order_margin"] = min(stats["order_margin"], order - need) if e1 >= floor else stats["order_margin"]
+                    ok = w1 < floor or order >= need
+                    if w1 >= floor:
+                        stats["order_margin"] = min(stats["order_margin"], order - need)
                     stats["orders"].setdefault("%s %s" % (method, qn), []).append(round(order, 2))
                 if not ok:
                     ctx.violation(
